@@ -234,7 +234,12 @@ func init() {
 						max = d
 					}
 				}
-				for _, i := range []int{-1 << 31, -2, -1, 0, max + 1, max + 2, 1 << 31} {
+				probes := []int{-1 << 31, -2, -1, 0, max + 1, max + 2, 1 << 31}
+				// integers that alias a defined value when truncated to 8, 16 or 32 bits
+				for _, d := range defined {
+					probes = append(probes, d+1<<8, d-1<<8, d+1<<16, d+1<<32, d-1<<32, d+5<<32, d+1<<48)
+				}
+				for _, i := range probes {
 					if isDef[i] {
 						continue
 					}
